@@ -1,7 +1,7 @@
 (* C10 — Saved state restores the session exactly. *)
 From Coq Require Import ZArith List Bool Permutation Sorted.
 From Common Require Import Res.
-From Core Require Import World Model Step Reach Proofs_C01 Proofs_C10 Proofs_C03b Proofs_C10b.
+From Core Require Import World Model Step Reach Proofs_C01 Proofs_C10 Proofs_C03b Proofs_C10b Proofs_C10c.
 Import ListNotations.
 Open Scope Z_scope.
 
@@ -69,3 +69,35 @@ Theorem C10_restore_paused_at_position :
   /\ a_uri w' = Some (trk x) /\ a_state w' = Paused /\ World.tl w' = World.tl w.
 Proof. exact restore_paused_at_position. Qed.
 Print Assumptions C10_restore_paused_at_position.
+
+(* T6 (the headline, playing): a session saved while PLAYING entry c - any settled state, any
+   tracklist without duplicate IDs containing c, any modes, position 0 < p <= length - and
+   restored in a new process with any coverage that includes the tracklist and play-last comes
+   back, once the notifications are delivered, on the entry with the same ID, playing, at the
+   same position (audio layer and reported time position), with the same tracklist. *)
+Theorem C10_save_restore_playing :
+  forall shuf f cov c p len w,
+  cov_tracklist cov = true -> cov_play_last cov = true ->
+  settled_on w c -> pstate w = Playing -> In c (World.tl w) -> NoDup (map tlid (World.tl w)) ->
+  1 <= tlid c -> a_pos w = p -> 0 < p -> p <= len -> len_of w (trk c) = Some len -> accepts w c ->
+  (match volume w with Some v => 0 <= v <= 100 | None => True end) ->
+  let w' := run_world shuf (S f) w [Save; Load cov; Deliver; Deliver; Deliver; Deliver; Deliver] in
+  option_map tlid (current w') = Some (tlid c) /\ pstate w' = Playing /\ pending w' = None /\ queue w' = []
+  /\ a_pos w' = p /\ fst (get_time_position w') = Ok p
+  /\ a_uri w' = Some (trk c) /\ a_state w' = Playing /\ World.tl w' = World.tl w.
+Proof. exact save_restore_playing. Qed.
+Print Assumptions C10_save_restore_playing.
+
+(* T7 (the headline, paused) *)
+Theorem C10_save_restore_paused :
+  forall shuf f cov c p len w,
+  cov_tracklist cov = true -> cov_play_last cov = true ->
+  settled_on w c -> pstate w = Paused -> In c (World.tl w) -> NoDup (map tlid (World.tl w)) ->
+  1 <= tlid c -> a_pos w = p -> 0 < p -> p <= len -> len_of w (trk c) = Some len -> accepts w c ->
+  (match volume w with Some v => 0 <= v <= 100 | None => True end) ->
+  let w' := run_world shuf (S f) w [Save; Load cov; Deliver; Deliver; Deliver; Deliver; Deliver; Deliver; Deliver] in
+  option_map tlid (current w') = Some (tlid c) /\ pstate w' = Paused /\ pending w' = None /\ queue w' = []
+  /\ a_pos w' = p /\ fst (get_time_position w') = Ok p
+  /\ a_uri w' = Some (trk c) /\ a_state w' = Paused /\ World.tl w' = World.tl w.
+Proof. exact save_restore_paused. Qed.
+Print Assumptions C10_save_restore_paused.
